@@ -56,6 +56,16 @@ def gen_case(rng, idx, thorough):
         def dur():  # noqa: F811
             return rng.randrange(10000, 20000)
 
+    high_watermark_us = 0
+    if idx % 9 == 7:
+        # requests wait in the queue for longer than the builder's high watermark (which only warns)
+        profile, workers, qlen, nsubs = "watermark", rng.choice([1, 2]), rng.choice([2, 4, 8]), 1
+        n = rng.randrange(qlen + workers + 2, qlen + workers + 14)
+        high_watermark_us = rng.choice([500, 2000, 5000])
+
+        def dur():  # noqa: F811
+            return rng.randrange(3000, 9000)
+
     stop_class = rng.choice(["before", "during", "during", "during_flushed", "after_flush", "after_flush",
                              "after_idle", "after_noflush"])
     sync_stop = rng.random() < 0.5
@@ -103,7 +113,7 @@ def gen_case(rng, idx, thorough):
         pub(rng.randrange(1, 4))
         ops.append({"op": "flush"})
     return {"case": idx, "nsubs": nsubs, "workers": workers, "qlen": qlen, "close_conn": rng.random() < 0.5,
-            "drain_timeout_us": drain_timeout_us, "ops": ops, "_class": stop_class, "_profile": profile}
+            "drain_timeout_us": drain_timeout_us, "high_watermark_us": high_watermark_us, "ops": ops, "_class": stop_class, "_profile": profile}
 
 
 # ------------------------------------------------------------------------------------------------
